@@ -37,21 +37,24 @@ CONFIGS = {
 INVS = ['NoFault', 'NoForeignSignal', 'RunLive', 'CascadeShape', 'Contained', 'NoStepAfterExit', 'DoneStable']
 
 
-def run(check, obs, labels, limit=None, invariants=INVS):
+def run(check, obs, labels, limit=None, invariants=INVS, random=True, conform=False, more=()):
     if limit is None:
         limit = 12000 if check.tier == 'quick' else 250000
     runs = []
     from concurrent.futures import ThreadPoolExecutor
 
     def gen(label):
-        return label, check.witnesses(label, CONFIGS[label], emit='EmitOps', invariants=invariants,
+        return label, check.witnesses(label, CONFIGS[label], emit='EmitOps', invariants=list(invariants) + (['NoStuck'] if check.tier == 'thorough' else []),
                                       coverage=check.tier == 'thorough', limit=limit)
     with ThreadPoolExecutor(3) as ex:          # the TLC runs of the configurations overlap
         generated = list(ex.map(gen, labels))
     for label, ws in generated:
         consts = CONFIGS[label]
         runs += [(p, t, consts['NRoots']) for p, t in usimrun.replay(check, ws, consts, limit=limit)]
+    if random:
+        runs += usimrun.random_runs(check, conform=conform)
+    runs += list(more)
     for idx, clause, pos in check.validate(obs, [r[1] for r in runs]):
-        check.report(clause, runs[idx][0], runs[idx][1], pos, extra={'NRoots': runs[idx][2]})
+        check.report(clause, runs[idx][0], runs[idx][1], pos, extra=usimrun.run_extra(runs[idx]))
     check.samples = [{'program': r[0], 'trace': r[1][:14]} for r in runs[:: max(1, len(runs) // 3)][:3]]
     return runs
